@@ -94,12 +94,18 @@ Proof.
   intros H. apply Ok_inj in H. inversion H; subst. split; [discriminate|]. split; [reflexivity|exact Ec].
 Qed.
 
+(* an accepted input has one run per chromosome (a chromosome whose run reappears is refused) *)
+Lemma collect_grouped fp o sizes inp r : bw_collect fp o sizes inp = Ok r -> NoDup (map fst (runs inp)).
+Proof.
+  destruct r as [[[ids outs] sum] data]. intros H. destruct (bw_collect_inv _ _ _ _ _ _ _ _ H) as (_ & Hp & _).
+  exact (proj1 (process_runs_spec o sizes (runs inp) None [] ids outs Hp)).
+Qed.
+
 (* ---------- hypotheses on options and input (the guards the Rust types impose) ---------- *)
 Definition opts_ok (o : opts) : Prop := 2 <= o_bs o <= 65535 /\ 1 <= o_ips o <= 65535.
 
 Definition input_ok (sizes : list (name * N)) (inp : list item) : Prop :=
-  NoDup (map fst (runs inp))                                            (* one run per chromosome *)
-  /\ Forall (fun c : name => no_zero c /\ Nlen c < U32) (map fst (runs inp))   (* names: no NUL byte *)
+  Forall (fun c : name => no_zero c /\ Nlen c < U32) (map fst (runs inp))   (* names: no NUL byte *)
   /\ Nlen (runs inp) < U16                                              (* chromosome count fits u16 *)
   /\ Forall (fun s => snd s < U32) sizes                                (* lengths are u32 *)
   /\ Forall (fun it : item => v_bits (snd it) < U32) inp.               (* values are f32 patterns *)
@@ -128,8 +134,8 @@ Let ds := Nlen (data_bytes data).
 Lemma core_runs : ids = number 0 names /\ Forall2 (run_out sizes) (runs inp) outs
   /\ map (fun c => (co_name c, co_id c)) outs = number 0 names.
 Proof.
-  destruct (bw_collect_inv _ _ _ _ _ _ _ _ Hcol) as (_ & Hp & _). destruct Hinp as (Hnd & _).
-  apply (process_runs_spec o sizes (runs inp) None [] ids outs Hp Hnd). intros c _. reflexivity.
+  destruct (bw_collect_inv _ _ _ _ _ _ _ _ Hcol) as (_ & Hp & _).
+  exact (proj2 (proj2 (process_runs_spec o sizes (runs inp) None [] ids outs Hp))).
 Qed.
 
 Lemma core_data : data = map psec (pieces_of ips outs).
@@ -156,7 +162,7 @@ Qed.
 
 Lemma core_outs_ok : Forall (fun c => co_id c < U32 /\ Forall value_ok (co_vals c)) outs.
 Proof.
-  destruct core_runs as (_ & HF & _). destruct Hinp as (_ & _ & Hn & Hsz & Hb).
+  destruct core_runs as (_ & HF & _). destruct Hinp as (_ & Hn & Hsz & Hb).
   pose proof (runs_forall (fun v => v_bits v < U32) inp Hb) as Hrb.
   apply Forall_forall. intros c0 Hc0. split.
   - apply core_out_in in Hc0. apply number_ids_range in Hc0. unfold names in Hc0.
@@ -189,7 +195,7 @@ Proof. destruct HA as (Hct & _). apply chrom_tree_inv. exact Hct. Qed.
 
 Lemma core_chroms_ok : Forall (chrom_ok sizes (maxlen ids)) ids.
 Proof.
-  destruct Hinp as (_ & Hnm & Hn & Hsz & _). destruct core_runs as (Eids & _).
+  destruct Hinp as (Hnm & Hn & Hsz & _). destruct core_runs as (Eids & _).
   apply Forall_forall. intros [c id] Hin. unfold chrom_ok. cbn [fst snd].
   split; [apply (maxlen_ge ids (c, id) Hin)|].
   rewrite Eids in Hin. pose proof (number_in_name _ _ _ _ Hin) as Hc. pose proof (number_ids_range _ _ _ _ Hin) as Hr.
@@ -200,7 +206,7 @@ Qed.
 
 Lemma core_maxlen : N.of_nat (maxlen ids) < U32.
 Proof.
-  destruct Hinp as (_ & Hnm & _). destruct core_runs as (Eids & _). unfold maxlen.
+  destruct Hinp as (Hnm & _). destruct core_runs as (Eids & _). unfold maxlen.
   assert (G : forall (l : idmap) a, N.of_nat a < U32 -> Forall (fun c => Nlen (fst c) < U32) l ->
               N.of_nat (fold_left (fun a c => Nat.max a (length (fst c))) l a) < U32).
   { induction l as [|x l IH]; intros a Ha Hl; [exact Ha|]. inversion Hl; subst. cbn [fold_left]. apply IH; [|assumption].
@@ -243,7 +249,7 @@ Proof.
     apply has_at_suffix in HH. unfold Nlen in HH at 1. rewrite header_bytes_length in HH. cbn in HH.
     pose proof (read_zoom_headers_ok bs (fp_zhdrs p) 64 HH Hok) as E.
     rewrite Nlen_to_nat in Hzs. rewrite E in Hzs. now apply Ok_inj in Hzs.
-  - destruct Hinp as (_ & _ & Hn & _). destruct core_runs as (Eids & _). rewrite Eids.
+  - destruct Hinp as (_ & Hn & _). destruct core_runs as (Eids & _). rewrite Eids.
     unfold Nlen in *. rewrite number_length. unfold names. rewrite map_length. exact Hn.
   - exact core_chroms_ok.
 Qed.
@@ -274,7 +280,7 @@ Theorem core_query (infl : list N -> list N) i c vs s e :
   bw_interval infl bs i c s e = Ok (clip_filter s e vs).
 Proof.
   intros Hri Hin. destruct core_read_info as [zs [Hri' _]]. rewrite Hri' in Hri. apply Ok_inj in Hri. subst i.
-  destruct core_runs as (Eids & HF & Eouts). destruct Hinp as (Hnd & _). destruct Hopts as (Hb & Hi).
+  destruct core_runs as (Eids & HF & Eouts). pose proof (collect_grouped _ _ _ _ _ Hcol) as Hnd. destruct Hopts as (Hb & Hi).
   (* the chrom_out of c *)
   destruct (Forall2_in_l _ _ _ _ HF Hin) as [c0 [Hc0 (Hn0 & Hv0 & Hl0 & Hk0)]]. cbn [fst snd] in *.
   pose proof (core_out_in c0 Hc0) as Hid. rewrite Hn0 in Hid.
@@ -318,11 +324,11 @@ End Core.
 
 (* what the writer's checks guarantee for a run it accepted *)
 Lemma collect_accepted fp o sizes inp ids outs sum data c vs :
-  bw_collect fp o sizes inp = Ok (ids, outs, sum, data) -> NoDup (map fst (runs inp)) -> In (c, vs) (runs inp) ->
+  bw_collect fp o sizes inp = Ok (ids, outs, sum, data) -> In (c, vs) (runs inp) ->
   exists len, lookup c sizes = Some len /\ wf_vals len vs /\ vs <> [].
 Proof.
-  intros Hcol Hnd Hin. destruct (bw_collect_inv _ _ _ _ _ _ _ _ Hcol) as (_ & Hp & _).
-  destruct (process_runs_spec o sizes (runs inp) None [] ids outs Hp Hnd (fun _ _ => eq_refl)) as (_ & HF & _).
+  intros Hcol Hin. destruct (bw_collect_inv _ _ _ _ _ _ _ _ Hcol) as (_ & Hp & _).
+  destruct (process_runs_spec o sizes (runs inp) None [] ids outs Hp) as (_ & _ & _ & HF & _).
   destruct (Forall2_in_l _ _ _ _ HF Hin) as [c0 [_ (_ & _ & Hl & Hk)]]. cbn [fst snd] in *.
   exists (co_len c0). split; [exact Hl|]. split; [now apply check_chrom_wf|].
   pose proof (runs_nonempty inp) as Hrn. rewrite Forall_forall in Hrn. exact (Hrn _ Hin).
